@@ -120,7 +120,7 @@ def extract(config='default', repo=REPO, fresh=False, out_dir=None, target=None)
         # keep the cache small: drop fact dirs of older trees
         base = os.path.join(CACHE, 'facts')
         olds = sorted((os.path.getmtime(os.path.join(base, x)), x) for x in os.listdir(base) if x != th)
-        for _, x in olds[:-3] if len(olds) > 3 else []:
+        for _, x in olds[:-12] if len(olds) > 12 else []:
             shutil.rmtree(os.path.join(base, x), ignore_errors=True)
         return d, th, False
     finally:
